@@ -488,3 +488,108 @@ pub fn sortlaws(l: &[Sx]) -> String {
     let (nan, mix) = nontame(&refs);
     format!("R=checked ## sorted={} nan={} mix={} why={}", if why.is_empty() { "holds" } else { "FAILS" }, nan, mix, if why.is_empty() { "-".to_string() } else { why.join(";") })
 }
+
+// ---------------- C18: regex builtins against the engine used directly ----------------
+fn strs(r: &NativeResult) -> Option<Vec<String>> {
+    match r {
+        Ok(Value::Array(a)) => a.iter().map(|v| if let Value::String(s) = v { Some(s.clone()) } else { None }).collect(),
+        _ => None,
+    }
+}
+fn show_strs(v: &[String]) -> String {
+    format!("[{}]", v.iter().map(|s| show_str(s)).collect::<Vec<_>>().join(","))
+}
+// (re id (ast ...) (s pattern) (s haystack) (s replacement) (n limit))
+pub fn re_case(l: &[Sx]) -> String {
+    let (pat, hay, rep) = (string(&l[3]), string(&l[4]), string(&l[5]));
+    let limit = match value(&l[6]) { Value::Number(x) => x, _ => 0.0 };
+    let (pv, hv, rv) = (st(&pat), st(&hay), st(&rep));
+    let m = call("re_is_match", &[hv.clone(), pv.clone()]);
+    let f = call("re_find", &[hv.clone(), pv.clone()]);
+    let c = call("re_capture", &[hv.clone(), pv.clone()]);
+    let p_all = call("re_replace", &[hv.clone(), pv.clone(), rv.clone()]);
+    let p_lim = call("re_replace", &[hv.clone(), pv.clone(), rv.clone(), num(limit)]);
+    let mut why: Vec<String> = vec![];
+    let mut chk = |ok: bool, what: &str| {
+        if !ok && why.len() < 3 {
+            why.push(what.replace(' ', "_"));
+        }
+    };
+    let fs = strs(&f);
+    let cs = strs(&c);
+    match regex_lite::Regex::new(&pat) {
+        Err(_) => chk(m.is_err() && f.is_err() && c.is_err() && p_all.is_err(), "an invalid pattern yields an error value"),
+        Ok(re) => {
+            let spans: Vec<(usize, usize)> = re.find_iter(&hay).map(|x| (x.start(), x.end())).collect();
+            let found: Vec<String> = spans.iter().map(|(a, b)| hay[*a..*b].to_string()).collect();
+            chk(matches!(&m, Ok(Value::Boolean(b)) if *b == !found.is_empty()), "re_is_match iff re_find returns a match");
+            chk(fs.as_ref() == Some(&found), "re_find returns exactly the non-overlapping matches");
+            let want_c: Vec<String> = match re.captures(&hay) {
+                Some(caps) => caps.iter().map(|g| g.map_or(String::new(), |x| x.as_str().to_string())).collect(),
+                None => vec![String::new(); re.captures_len()],
+            };
+            chk(cs.as_ref() == Some(&want_c), "re_capture: first match then one entry per group, all empty when nothing matches");
+            chk(cs.as_ref().map(|v| v.len()) == Some(re.captures_len()), "re_capture has one entry per group plus one");
+            if let (Some(cv), Some(fv)) = (&cs, &fs) {
+                if !fv.is_empty() {
+                    chk(cv[0] == fv[0], "re_capture starts with the first match");
+                }
+            }
+            if !rep.contains('$') {
+                let splice = |n: usize| {
+                    let mut out = String::new();
+                    let mut pos = 0;
+                    for (a, b) in spans.iter().take(n) {
+                        out.push_str(&hay[pos..*a]);
+                        out.push_str(&rep);
+                        pos = *b;
+                    }
+                    out.push_str(&hay[pos..]);
+                    out
+                };
+                chk(matches!(&p_all, Ok(Value::String(s)) if *s == splice(usize::MAX)), "re_replace without limit rewrites exactly the matches re_find reports");
+                let n = if limit >= 1.0 { limit.floor() as usize } else { usize::MAX };
+                chk(matches!(&p_lim, Ok(Value::String(s)) if *s == splice(n)), "re_replace with limit n rewrites only the first n matches");
+            }
+        }
+    }
+    let show = |r: &NativeResult| match r {
+        Ok(v) => show_value(v),
+        Err(e) => format!("err:{}", show_nerr(e)),
+    };
+    format!("M={} F={} C={} P={} L={} ## regex={} why={}", show(&m), show(&f), show(&c), show(&p_all), show(&p_lim), if why.is_empty() { "holds" } else { "FAILS" }, if why.is_empty() { "-".to_string() } else { why.join(";") })
+}
+// (relit id (s literal) (s haystack) (s replacement)): an escaped literal behaves like contains, count, replace
+pub fn relit_case(l: &[Sx]) -> String {
+    let (x, hay, rep) = (string(&l[2]), string(&l[3]), string(&l[4]));
+    let pat = regex_lite::escape(&x);
+    let (pv, hv, rv, xv) = (st(&pat), st(&hay), st(&rep), st(&x));
+    let mut why: Vec<String> = vec![];
+    let mut chk = |ok: bool, what: &str| {
+        if !ok && why.len() < 3 {
+            why.push(what.replace(' ', "_"));
+        }
+    };
+    let m = call("re_is_match", &[hv.clone(), pv.clone()]);
+    let f = strs(&call("re_find", &[hv.clone(), pv.clone()]));
+    chk(matches!((&m, call("contains", &[hv.clone(), xv.clone()])), (Ok(a), Ok(b)) if same(a, &b)), "escaped literal: re_is_match = contains");
+    let cnt = as_num(&call("count", &[hv.clone(), xv.clone()]));
+    chk(f.as_ref().map(|v| v.len() as f64) == cnt, "escaped literal: number of matches = count");
+    chk(f.as_ref().map_or(false, |v| v.iter().all(|s| *s == x)), "escaped literal: every match is the literal");
+    if !rep.contains('$') {
+        let a = call("re_replace", &[hv.clone(), pv.clone(), rv.clone()]);
+        let b = call("replace", &[hv.clone(), xv.clone(), rv.clone()]);
+        chk(matches!((&a, &b), (Ok(p), Ok(q)) if same(p, q)), "escaped literal: re_replace = replace");
+    }
+    format!("F={} ## regex={} why={}", f.map(|v| show_strs(&v)).unwrap_or("err".into()), if why.is_empty() { "holds" } else { "FAILS" }, if why.is_empty() { "-".to_string() } else { why.join(";") })
+}
+// (reinv id (s pattern) (s haystack)): an invalid pattern yields an error value from all four builtins
+pub fn reinv_case(l: &[Sx]) -> String {
+    let (pat, hay) = (string(&l[2]), string(&l[3]));
+    let (pv, hv) = (st(&pat), st(&hay));
+    let invalid = regex_lite::Regex::new(&pat).is_err();
+    let rs = [call("re_is_match", &[hv.clone(), pv.clone()]), call("re_find", &[hv.clone(), pv.clone()]), call("re_capture", &[hv.clone(), pv.clone()]), call("re_replace", &[hv.clone(), pv.clone(), st("x")])];
+    let all_err = rs.iter().all(|r| matches!(r, Err(NativeError::CustomError(_))));
+    let none_err = rs.iter().all(|r| r.is_ok());
+    format!("R={} ## regex={}", if invalid { "invalid" } else { "valid" }, if (invalid && all_err) || (!invalid && none_err) { "holds" } else { "FAILS" })
+}
